@@ -7,5 +7,6 @@ theorem facts_guarded : guarded = true := by decide
 theorem facts_nonTrivial : nonTrivial = true := by decide
 theorem facts_txSerialised : txSerialised = true := by decide
 theorem facts_handlersAtomic : handlersAtomic = true := by decide
+theorem facts_getHoldsLock : getHoldsLock = true := by decide
 
 end Gribi.FactsOk
